@@ -1,0 +1,14 @@
+//go:build verif
+
+package gldap
+
+// Scheduling hook for the verification harness in /verif (see DESIGN.md there).
+// It exists only with the "verif" build tag; a test may install verifYieldFn to
+// pause the accept loop at a named site and so force an interleaving.
+var verifYieldFn func(site string)
+
+func verifYield(site string) {
+	if f := verifYieldFn; f != nil {
+		f(site)
+	}
+}
